@@ -25,7 +25,7 @@ ASSUMPTIONS = ['input FASTQ is well formed (4 lines per record, equal seq/qual l
                'per-cell output is only combined with barcode strategies (the bulk strategy writes plain strings without a cell)']
 MIN_NONTRIVIAL = {'quick': 100, 'thorough': 500}
 REQUIRED_MONITORS = ['hook:FastqIterator.__next__', 'hook:target.write', 'hook:reject.write', 'files:strict_parsed',
-                     'oracle:accepted_ids', 'oracle:rejected_ids', 'config:per_cell', 'config:no_reject_handle', 'config:max_read_pairs']
+                     'oracle:accepted_ids', 'oracle:rejected_ids', 'config:per_cell', 'config:no_reject_handle', 'config:max_read_pairs', 'config:cli']
 SHARD_TIMEOUT = {'quick': 900, 'thorough': 5400}
 
 HDR_KINDS = ['illumina'] * 8 + ['illumina_unknown_index', 'illumina_numeric_index', 'short7', 'scmo', '3dec']
@@ -37,7 +37,147 @@ def gen_cases(tier, seed):
     for name in LY.ALL_NAMES:
         for rep in range(reps):
             cases.append({'strategy': name, 'rep': rep, 'seed': seed, 'n': None})
+    # the real command line (demux.py run as __main__ in a subprocess) on a generated directory with several lanes
+    for j in range(12 if tier == 'quick' else 150):
+        cases.append({'kind': 'cli', 'j': j, 'seed': seed})
     return cases
+
+
+CLI_DRIVER = r'''
+import sys, runpy
+sys.argv = ['demux.py'] + sys.argv[1:]
+import singlecellmultiomics.modularDemultiplexer.demux as m
+runpy.run_path(m.__file__, run_name='__main__')
+'''
+
+
+def run_cli_case(case):
+    import subprocess
+    from vlib.common import PY
+    acc = Acc()
+    r = rng(case['seed'], 'C01', 'cli', case['j'])
+    name = r.choice([n for n in LY.ALL_NAMES if n not in ('ILLU', 'CHROMC16U12')])
+    ends = LY.ends_of(name)
+    single = ends == 'se' or (ends == 'any' and r.random() < 0.3)
+    k = r.choice([0, 1])
+    with Scratch('c01cli') as d:
+        wl = fq.load_whitelists(os.path.join(fq.REPO_DEMUX, 'barcodes'))
+        iwl = fq.load_whitelists(os.path.join(fq.REPO_DEMUX, 'indices'))
+        lib = 'LIBCLI'
+        lanes = r.randint(1, 3)
+        all_pairs = []
+        files = []
+        indir = os.path.join(d, 'fastq')
+        os.makedirs(indir)
+        rid0 = 0
+        case_id = 7700 + case['j']
+        for lane in range(1, lanes + 1):
+            n = r.choice([20, 40, 80])
+            pairs = build_library(r, name, wl, iwl, n, single, case_id, r.choice([41, 93]))
+            for p in pairs:
+                # ids unique over the lanes
+                p['id'] += rid0
+                p['reads'] = [(fq.header(p['hdr'], p['id'], case_id, m, p['index']),) + rd[1:] for m, rd in enumerate(p['reads'])]
+            rid0 += n
+            paths = [os.path.join(indir, f'{lib}_S1_L00{lane}_R1_001.fastq.gz')] + ([] if single else [os.path.join(indir, f'{lib}_S1_L00{lane}_R2_001.fastq.gz')])
+            fq.write_fastq(paths, pairs)
+            files += paths
+            all_pairs += pairs
+        N = len(all_pairs)
+        nopt = r.choice([None, None, 1, N - 1, N, N + 3, r.randint(1, N)])
+        norejects = r.random() < 0.3
+        scsepf = r.random() < 0.3
+        out = os.path.join(d, 'out')
+        cmd = files + ['-use', name, '--y', '-o', out, '-hd', str(k)]
+        if nopt is not None:
+            cmd += ['-n', str(nopt)]
+        if norejects:
+            cmd.append('--norejects')
+        if scsepf:
+            cmd += ['--scsepf', '-fh', str(r.randint(2, 5))]
+        if single:
+            cmd.append('--se')
+        cfg = {'cli': True, 'strategy': name, 'k': k, 'single_end_input': single, 'lanes': lanes, 'N': N, 'n_option': nopt, 'norejects': norejects, 'scsepf': scsepf}
+        acc.count('config:cli')
+        if scsepf:
+            acc.count('config:per_cell')
+        if norejects:
+            acc.count('config:no_reject_handle')
+        if nopt is not None:
+            acc.count('config:max_read_pairs')
+        drv = os.path.join(d, 'drv.py')
+        with open(drv, 'w') as f:
+            f.write(CLI_DRIVER)
+        p = subprocess.run([PY, drv] + cmd, capture_output=True, text=True, timeout=600, cwd=d)
+        acc.evals += 1
+        wit = {'config': cfg, 'library_head': [(x['id'], x['kind'], x['hk'], x['reads']) for x in all_pairs[:3]]}
+        if p.returncode != 0:
+            acc.violate('cli-failed', f'demux.py exited {p.returncode}: {p.stderr[-400:]} ({cfg})', wit)
+            return acc
+        prefix = os.path.join(out, lib)
+        consumed_n = N if nopt is None else min(N, nopt)
+        consumed = [x['id'] for x in all_pairs[:consumed_n]]
+        byid = {x['id']: x for x in all_pairs}
+        mates = ['R1'] + ([] if single else ['R2'])
+
+        def load(pattern):
+            res = []
+            for m in mates:
+                rows = []
+                for path in sorted(glob.glob(os.path.join(prefix, pattern.format(m=m)))):
+                    recs, err = fq.read_fastq_strict(path)
+                    acc.count('files:strict_parsed')
+                    if err:
+                        acc.violate('malformed-fastq-output', f'cli {name}: {os.path.basename(path)}: {err} ({cfg})', wit)
+                        return None
+                    rows.append(recs)
+                res.append(rows)
+            return res
+        demux = load('demultiplexed.*.{m}.fastq.gz' if scsepf else 'demultiplexed{m}.fastq.gz')
+        rej = load('rejects{m}.fastq.gz') if not norejects else [[] for _ in mates]
+        if demux is None or rej is None:
+            return acc
+
+        def ids(rows_per_mate, what):
+            out_ids = []
+            for fi, recs in enumerate(rows_per_mate[0]):
+                these = [(fq.record_id(x[0]) or (None,))[0] for x in recs]
+                if None in these:
+                    acc.violate(f'{what}-record-unidentifiable', f'cli {name}: {what} record cannot be traced to an input ({cfg})', wit)
+                known_ids = [t for t in these if t is not None]
+                if known_ids != sorted(known_ids) or len(set(known_ids)) != len(known_ids):
+                    acc.violate(f'{what}-written-twice' if len(set(known_ids)) != len(known_ids) else f'{what}-order-not-preserved',
+                                f'cli {name}: ids not strictly increasing in a {what} file: {known_ids[:10]} ({cfg})', wit)
+                for mi in range(1, len(rows_per_mate)):
+                    other = [(fq.record_id(x[0]) or (None,))[0] for x in rows_per_mate[mi][fi]] if fi < len(rows_per_mate[mi]) else None
+                    if other != these:
+                        acc.violate('mates-out-of-sync', f'cli {name}: {what} R1/R2 files differ in record ids ({cfg})', wit)
+                out_ids += known_ids
+            return out_ids
+        d_ids = ids(demux, 'demultiplexed')
+        r_ids = ids(rej, 'reject') if not norejects else []
+        acc.count('oracle:accepted_ids', len(d_ids))
+        acc.count('oracle:rejected_ids', len(r_ids))
+        acc.count('hook:FastqIterator.__next__', 0)
+        if set(d_ids) & set(r_ids):
+            acc.violate('written-to-both-sinks', f'cli {name}: ids in both outputs ({cfg})', wit)
+        if not norejects:
+            missing = sorted(set(consumed) - set(d_ids) - set(r_ids))
+            if missing:
+                acc.violate('read-vanished', f'cli {name}: {len(missing)} of the first {consumed_n} pairs are in neither output, e.g. {missing[:6]} '
+                                             f'(kinds {sorted(set((byid[i]["kind"], byid[i]["hk"]) for i in missing))[:4]}) ({cfg})', wit)
+        extra = sorted((set(d_ids) | set(r_ids)) - set(consumed))
+        if extra:
+            acc.violate('unconsumed-pair-written', f'cli {name}: ids {extra[:6]} written although -n {nopt} limits the library to its first {consumed_n} pairs ({cfg})', wit)
+        log = open(os.path.join(prefix, 'demultiplexing.log')).read()
+        import re
+        counted = sum(int(x) for x in re.findall(r'^%s\t(\d+)$' % re.escape(name), log, flags=re.M))
+        if counted != len(d_ids):
+            acc.violate('yield-counter-mismatch', f'cli {name}: log reports {counted} reads for the strategy, {len(d_ids)} records written ({cfg})', wit)
+        if d_ids and r_ids:
+            acc.sigs.add(f"cli/{case['j']}/{sorted(cfg.items(), key=str)}")
+        acc.sample = {'config': cfg, 'consumed': consumed_n, 'demultiplexed': len(d_ids), 'rejected': len(r_ids)}
+    return acc
 
 
 def build_library(r, name, wl, iwl, n, single, case_id, qmax):
@@ -60,6 +200,8 @@ def build_library(r, name, wl, iwl, n, single, case_id, qmax):
 
 
 def run_case(case):
+    if case.get('kind') == 'cli':
+        return run_cli_case(case)
     from singlecellmultiomics.fastqProcessing.fastqHandle import FastqHandle
     from singlecellmultiomics.fastqProcessing import fastqIterator
     acc = Acc()
